@@ -558,6 +558,17 @@ theorem C14_execution_order_history {s s' : Sim} {f : Nat} {sts : List Step} {tr
   exact ⟨hl, ht.ordered, fun x hx => (ht.ahead x hx).1,
     fun x hx => ⟨(runHistT_born hw hr x hx).1, (ht.ahead x hx).2, (runHistT_born hw hr x hx).2⟩⟩
 
+/-- **The traces of `C14_execution_order_history` are the real histories.**  Erasing the trace from `runHistT` gives `runHist` —
+    nothing but the model's operations (`doCmd`, `runUntil`, `runNext`, `caught`) one after the other —, and every history
+    `ReachableFrom` speaks about is such a list of steps and so has a trace. -/
+theorem C14_history_traces_are_histories :
+    (∀ (f : Nat) (s : Sim) (sts : List Step), (runHistT f s sts).map (·.1) = runHist f s sts) ∧
+    (∀ {s s' : Sim}, ReachableFrom s s' → ∃ f sts tr, runHistT f s sts = some (s', tr)) := by
+  refine ⟨runHistT_erase, fun hr => ?_⟩
+  obtain ⟨f, sts, h⟩ := reachableFrom_runHist hr
+  obtain ⟨tr, htr⟩ := runHistT_of_runHist h
+  exact ⟨f, sts, tr, htr⟩
+
 /-! non-vacuity: a concrete run with ties, nested scheduling and a cancellation -/
 section Example
 def exProg : Nat → List Cmd
